@@ -1,7 +1,7 @@
 (* C14: case format written by the harness, the oracle [ok] (specification
    evaluated on what the implementation returned) and the correspondence
    [corr] (model evaluated on the same input). *)
-From Errdef Require Import Base.Str Base.Outcome Model.Value Model.Resolver Proofs.ResolverProofs.
+From Errdef Require Import Base.Str Base.Outcome Model.Value Model.Resolver Model.ResolverGen Proofs.ResolverProofs.
 
 Inductive pred := PTrue | PFalse | PIntGt (z : Z) | PStrEq (s : string).
 Inductive lookup :=
@@ -41,17 +41,18 @@ Definition eval_pred (p : pred) (v : rv) : bool :=
   end.
 
 (* ---- model side ---- *)
+(* the functions evaluated here are the interpreters of Gen/ResolverSrc.v (Model/ResolverGen.v) *)
+Definition res_of_rdef (o : outcome rdef) : res := match o with Ok d => RFound (rd_id d) | _ => RPanic end.
 Definition model (c : case) : res :=
-  let r := new_resolver (c_defs c) in
+  let r := g_new_resolver (c_defs c) in
   match c_lookup c with
-  | LKind k => res_of (resolve_kind r k)
-  | LKindOrDefault k => RFound (rd_id (resolve_kind_or_default r (c_default c) k))
-  | LField key w => res_of_out (resolve_field r key w)
-  | LFieldOrDefault key w =>
-      match resolve_field_or_default r (c_default c) key w with Ok d => RFound (rd_id d) | _ => RPanic end
-  | LFieldFunc key p => res_of_out (resolve_field_func (r_defs r) key (fun _ v => Ok (eval_pred p v)))
+  | LKind k => res_of (g_resolve_kind r k)
+  | LKindOrDefault k => RFound (rd_id (g_resolve_kind_or_default r (c_default c) k))
+  | LField key w => res_of_out (g_resolve_field r key w)
+  | LFieldOrDefault key w => res_of_rdef (g_resolve_field_or_default r (c_default c) key w)
+  | LFieldFunc key p => res_of_out (g_resolve_field_func r key (fun _ v => Ok (eval_pred p v)))
   | LFieldFuncOrDefault key p =>
-      res_dflt (c_default c) (res_of_out (resolve_field_func (r_defs r) key (fun _ v => Ok (eval_pred p v))))
+      res_of_rdef (g_resolve_field_func_or_default r (c_default c) key (fun _ v => Ok (eval_pred p v)))
   end.
 
 (* ---- specification side: "first in registration order", nothing else ---- *)
